@@ -1,5 +1,6 @@
 import PycModel.Spec.Scoping
 import PycModel.Parser.Core
+import PycModel.Proofs.TransUnit
 /-!
 # C04 — an identifier is a type name exactly where C scoping makes it one
 
@@ -61,5 +62,67 @@ theorem lookup_refines_spec (st : List Scope) (n : String) :
   | cons sc r ih =>
     simp only [isTypeInScopes, Spec.lookupS, scopeLookup]
     cases h : sc.find? (fun x => x.1 == n) <;> simp [ih]
+
+/-! ## at the level of the parser: `T * x ;` is a declaration exactly when `T` names a type
+
+The scope stack of a parser state that `SeesT env` describes the static typedef environment `env.ty`
+(`View.Agrees`): `_is_type_in_scope` computes `env.ty` (`View.Agrees.lookup`), lexing braces keeps
+it (`View.Agrees.lex`), and the lexer callback hands the parser `TYPEID` for an identifier exactly
+when `env.ty` says so (`classification`).  The two theorems below run the *same spelling*
+`T * x ;` through `_parse_block_item_list` in the two environments. -/
+
+open PycModel.View in
+/-- the class the parser sees for an identifier token is decided by the typedef environment alone -/
+theorem classification (ty : String → Bool) (n : String) :
+    clsF ty ("ID", n) = (if ty n then "TYPEID" else "ID", n) := by
+  simp [clsF]
+
+open PycModel.View PycModel.FullExpr PycModel.DeclSkel PycModel.DeclParse PycModel.BuildDecl PycModel.StmtSkel PycModel.TransUnit
+  PycModel.TypeModify
+
+/-- **`T * x ;` with `T` a typedef name is a declaration** of `x` as pointer to `T`: the block-item
+loop of the parser, run on the five tokens, returns one `Decl` -/
+theorem typedef_name_makes_a_declaration {env : Env} (T x : String) (hx : env.ty x = false) (s : PState) (rest : List Tk)
+    (hs : SeesT env s ([("TYPEID", T), ("TIMES", "*"), ("ID", x), ("SEMI", ";")] ++ ("RBRACE", "}") :: rest)) :
+    ∃ s', run 60 (.blockItemListLoop []) s =
+        .ok [mk .Decl (tc (s.idx + 1)) [.str x, .list [], .list [], .list [], .list [],
+               mk .PtrDecl (tc (s.idx + 1)) [.list [],
+                 mk .TypeDecl (tc (s.idx + 2)) [.str x, .list [], .none, mk .IdentifierType (tc s.idx) [.list [.str T]]]],
+               .none, .none]] s' ∧
+      SeesT env s' (("RBRACE", "}") :: rest) := by
+  let dc : Dcl := { specs := [("TYPEID", T)], first := { d := .ptr [[]] (.name x), init := none }, more := [] }
+  have hwf : ∀ it ∈ [Item.decl dc], WFItem it := by
+    intro it hit; simp only [List.mem_singleton] at hit; subst hit
+    refine ⟨by simp [dc, SpecToks], ?_, by simp [dc, sawAfter, isTypeTok], ⟨.ptr _ _ (by simp) (by simp) (.name _) rfl, by intro e h; cases h⟩, by intro it h; cases h⟩
+    intro t ht; simp only [dc, List.mem_singleton] at ht; subst ht
+    exact ⟨by simp [storageClass], by simp [typeQualifier]⟩
+  have hv : [] ++ itemsVals s.idx [Item.decl dc] =
+      [mk .Decl (tc (s.idx + 1)) [.str x, .list [], .list [], .list [], .list [],
+               mk .PtrDecl (tc (s.idx + 1)) [.list [],
+                 mk .TypeDecl (tc (s.idx + 2)) [.str x, .list [], .none, mk .IdentifierType (tc s.idx) [.list [.str T]]]],
+               .none, .none]] := rfl
+  have hf : itemsFuel [Item.decl dc] ≤ 60 := Nat.le_of_ble_eq_true rfl
+  obtain ⟨s', hr, hs', _⟩ := items_loop [.decl dc] [] s rest 60 hwf
+    (by intro y hy; simp [itemsNames, Item.names, Dcl.names, dc, dName] at hy; subst hy; exact hx)
+    (by simpa [itemsFlat, Item.flat, Dcl.flat, Dcl.body, dc, IDc.flat, DeclSkel.D.flat, starsFlat, restFlat] using hs)
+    hf
+  exact ⟨s', hv ▸ hr, hs'⟩
+
+/-- **the same spelling with `T` an ordinary identifier is an expression statement**: the product
+of `T` and `x` -/
+theorem ordinary_name_makes_an_expression {env : Env} (T x : String) (s : PState) (rest : List Tk)
+    (hs : SeesT env s ([("ID", T), ("TIMES", "*"), ("ID", x), ("SEMI", ";")] ++ ("RBRACE", "}") :: rest)) :
+    ∃ s', run 60 (.blockItemListLoop []) s =
+        .ok [mk .BinaryOp (tc s.idx) [.str "*", mk .ID (tc s.idx) [.str T], mk .ID (tc (s.idx + 2)) [.str x]]] s' ∧
+      SeesT env s' (("RBRACE", "}") :: rest) := by
+  let st : S := .expr (.bin "TIMES" "*" (.id T) (.id x))
+  have hwf : ∀ it ∈ [Item.stmt st], WFItem it := by
+    intro it hit; simp only [List.mem_singleton] at hit; subst hit
+    exact .expr _ (.bin 0 9 _ _ _ _ (by decide) (by decide) (.id _ _) (.id _ _))
+  obtain ⟨s', hr, hs', _⟩ := items_loop [.stmt st] [] s rest 60 hwf
+    (by intro y hy; simp [itemsNames, Item.names] at hy)
+    (by exact hs)
+    (Nat.le_of_ble_eq_true rfl)
+  exact ⟨s', hr, hs'⟩
 
 end PycModel.C04
